@@ -811,3 +811,7 @@ silent('s-cache3-sample-before-read', ['C16', 'C17'], 'the mtime is sampled befo
        (CACHE,) + _SAVE_SIG, (GRAMMAR,) + _SAVE_CALL_1, (GRAMMAR,) + _SAVE_CALL_2,
        (GRAMMAR, "        if cache and file_io.path is not None:\n            module_node = load_module(self._hashed, file_io, cache_path=cache_path)\n            if module_node is not None:\n                return module_node  # type: ignore[no-any-return]\n",
         "        if cache and file_io.path is not None:\n            module_node = load_module(self._hashed, file_io, cache_path=cache_path)\n            if module_node is not None:\n                return module_node  # type: ignore[no-any-return]\n        p_time = None\n        if file_io.path is not None:\n            try:\n                p_time = file_io.get_last_modified()\n            except OSError:\n                cache = False\n"))
+
+# round 13: end-of-file DEDENTs through the per-line helper (rt13-C07)
+fire('tok5-eof-dedents-through-helper', ['C07', 'C09'], ['TOK-5'], 'the end-of-file DEDENT loop is replaced by the per-line dedent helper, whose tokens carry the position of the last matched token',
+     (TOK, "    for indent in indents[1:]:\n        indents.pop()\n        yield PythonToken(DEDENT, '', end_pos, '')\n", "    yield from dedent_if_necessary(0)\n"))
